@@ -3,6 +3,7 @@
 # Like try_mutant.sh but never touches /repo's working tree: the patch is applied in a private scratch worktree
 # of /repo HEAD and the monitor is built against it through a private modfile (replace => the worktree), so
 # several changes can be tried in parallel. The worktree is removed straight after the build.
+export DBUS_SESSION_BUS_ADDRESS="${DBUS_SESSION_BUS_ADDRESS:-unix:path=/nonexistent/vmon-no-session-bus}"   # no session bus daemon per process (keyring init)
 patch="$1"; id="$2"; name="${3:-$(basename $(dirname $patch))}"
 snap="${VMON_SNAP:-/verif}"   # where vmon/, known_findings.json and findings/ are taken from (matrix.sh snapshots them)
 export GOFLAGS=-mod=mod GOPROXY=off GOSUMDB=off GOTOOLCHAIN=local
